@@ -43,26 +43,20 @@ Definition atom_tag (a : atom) : tag :=
 Definition vtag (v : value) : tag :=
   match v with VT _ tg _ => tg | VL _ _ => "list"%string | VA _ a => atom_tag a end.
 
-(* Python's `node == template` between atoms (bool is an int; no integral floats in the domain) *)
-Definition b2z (b : bool) : Z := if b then 1%Z else 0%Z.
-Definition py_eq (a b : atom) : bool :=
+(* equality of plain constants: same type and same value (core.py:375 after the F12-4 repair:
+   `type(node) is type(template) and node == template`) *)
+Definition atom_eqb (a b : atom) : bool :=
   match a, b with
   | ANone, ANone => true
   | ABool x, ABool y => Bool.eqb x y
-  | ABool x, AInt z | AInt z, ABool x => Z.eqb (b2z x) z
   | AInt x, AInt y => Z.eqb x y
   | AStr x, AStr y => N.eqb x y
   | AOth t x, AOth u y => String.eqb t u && N.eqb x y
   | _, _ => false
   end.
 
-(* core.py:363-364 (`template is True/False/None` -> identity) and 375-376 (`node == template`) *)
-Definition atom_match (t a : atom) : bool :=
-  match t with
-  | ANone => match a with ANone => true | _ => false end
-  | ABool b => match a with ABool b' => Bool.eqb b b' | _ => false end
-  | _ => py_eq a t
-  end.
+(* core.py:363-364 (`template is True/False/None` -> identity) and 375-376 *)
+Definition atom_match (t a : atom) : bool := atom_eqb a t.
 
 (* ---------------------------------------------------------------------------------------------- *)
 (* templates *)
@@ -437,15 +431,6 @@ Definition head_tags (t : tmpl) : option (list tag) :=
 
 (* node identity: the converter adds a pseudo field "@" holding a unique number *)
 Definition uid (v : value) : option value := match v with VT _ _ fs => lookup "@"%string fs | _ => None end.
-Definition atom_eqb (a b : atom) : bool :=
-  match a, b with
-  | ANone, ANone => true
-  | ABool x, ABool y => Bool.eqb x y
-  | AInt x, AInt y => Z.eqb x y
-  | AStr x, AStr y => N.eqb x y
-  | AOth t x, AOth u y => String.eqb t u && N.eqb x y
-  | _, _ => false
-  end.
 Definition same_node (a b : value) : bool :=
   match uid a, uid b with
   | Some (VA _ x), Some (VA _ y) => atom_eqb x y
